@@ -46,7 +46,7 @@ NAMES = {
     "timelike": {"S1": "t", "S2": "time_", "k1": "T", "k2": "dt", "d": "d1", "f": "fd", "C": "comp"},
     "modules": {"S1": "math", "S2": "S2", "k1": "scipy", "k2": "k2", "d": "numpy", "f": "fd", "C": "comp"},
 }
-LAWS = ["ma", "ma-comp", "piecewise", "power", "exp", "ln", "fcall", "sqrt", "piconst"]
+LAWS = ["ma", "ma-comp", "piecewise", "power", "exp", "ln", "fcall", "sqrt", "piconst", "rootsq", "abs", "minmax", "fracpow"]
 STOICH = ["one", "two", "half", "rule"]
 K2 = ["const", "rule", "ia"]
 
@@ -75,6 +75,15 @@ def law_expr(law, nm, use_d):
         return f"{f}({S1}, {k})", lambda e: e["S1"] * val(e) / (1 + val(e))
     if law == "sqrt":
         return f"{k} * sqrt({S1})", lambda e: val(e) * math.sqrt(e["S1"])
+    # expressions whose simplification is only valid for positive arguments; the states include S1 < S2
+    if law == "rootsq":
+        return f"{k} * sqrt(({S1} - {nm['S2']})^2)", lambda e: val(e) * abs(e["S1"] - e["S2"])
+    if law == "abs":
+        return f"{k} * abs({S1} - {nm['S2']})", lambda e: val(e) * abs(e["S1"] - e["S2"])
+    if law == "minmax":
+        return f"{k} * max({S1}, {nm['S2']}) + min({S1}, 0.75)", lambda e: val(e) * max(e["S1"], e["S2"]) + min(e["S1"], 0.75)
+    if law == "fracpow":
+        return f"{k} * (({S1} - {nm['S2']})^2)^0.25 + {S1}", lambda e: val(e) * math.sqrt(abs(e["S1"] - e["S2"])) + e["S1"]
     if law == "piconst":
         return f"{k} * pi * {S1} + exponentiale * 0.125", lambda e: val(e) * math.pi * e["S1"] + math.e * 0.125
     raise ValueError(law)
